@@ -31,14 +31,15 @@ RULE = ("for routes of h = 1..8 hops over line/tree topologies: every single-fai
         "(j = 0..h-2) fails completely - plus the fault-free run, for ack-type and non-ack-type messages (quick: sampled "
         "types, h in {1,2,3,5,8}; thorough: all types 0..255 except those the network layer consumes x all h); seeded "
         "runs beyond with random double faults, cross traffic routed through the sender (a foreign NETWORK_ACK passes it while "
-        "its own never arrives), tx_timeout 5..150 ms, route_timeout 15..450 ms, MCU jitter. Non-trivial: "
+        "its own never arrives - or does), a calibrated family (route_timeout set just above the measured NETWORK_ACK round trip, first hop deaf "
+        "for 10-25 ms), frame objects still carrying another node's address, tx_timeout 5..150 ms, route_timeout 15..450 ms, MCU jitter. Non-trivial: "
         "route has an intermediate node; distinct = distinct abstract event sequences")
 ASSUMPTIONS = ["single-frame messages (<= 24 bytes): the property's scope", "chip/air model M1-M4, M7, M9",
                "a NETWORK_ACK sitting unread in the RX FIFO at the deadline is a legitimate timeout (margin = 2 poll periods + 5 ms)"]
 CLAUSES = {"true_only_if": "True only if a NETWORK_ACK addressed to the sender arrived within route_timeout",
            "false_only_if": "False otherwise", "bounded": "never blocking longer than the transmit and route timeouts allow",
            "once": "the delivering node sends exactly one NETWORK_ACK", "never": "other types / neighbours / multicasts / NETWORK_ACKs cause none"}
-PROBES = ["max_rt"]
+PROBES = ["max_rt", "late_ack_calibrated"]
 SHRINK_KEYS = ("faults",)
 CHUNK = 8
 MAX_INCONCLUSIVE = 0.02
@@ -119,14 +120,23 @@ def make(i, base_seed, tier):
     if rng.random() < 0.5:
         src, dst = dst, src
     cross = None
-    if i >= len(en) and rng.random() < 0.35:
+    late = None
+    if i >= len(en) and rng.random() < 0.2:
+        # calibrated: a first message measures the NETWORK_ACK round trip; route_timeout is then set just above it and the
+        # second message meets a first hop that is deaf for a while (link-layer re-transmissions succeed later)
+        mode, faults_desc = "unicast", []
+        h = rng.randint(2, 5)
+        t = rng.choice([65, 100, 127, 191])
+        late = {"outage_ms": rng.choice([10, 15, 25])}
+    if i >= len(en) and late is None and rng.random() < 0.35:
         # cross traffic through the sender: the sender is a router (0o1) whose own NETWORK_ACK never arrives, while a
         # descendant's message - and the NETWORK_ACK answering it - pass through it during its wait
         mode = "unicast"
         src, dst = 0o1, rng.choice([0o22, 0o222])
         t = rng.choice([65, 100, 127, 191])
-        faults_desc = [{"kind": rng.choice(["nack", "fwd"]), "pos": rng.choice([0, 1]) if True else 0}]
-        cross = {"from": 0o11, "to": rng.choice([0o3, 0o33]), "delay_ms": rng.choice([1, 3, 8, 20]), "type": rng.choice([65, 90, 127])}
+        faults_desc = [{"kind": rng.choice(["nack", "fwd"]), "pos": rng.choice([0, 1])}] if rng.random() < 0.5 else []
+        cross = {"from": 0o11, "to": rng.choice([0o3, 0o33]), "delay_ms": rng.choice([0, 0, 1, 1, 2, 3, 8, 20]), "type": rng.choice([65, 90, 127]),
+                 "slow_sender": rng.random() < 0.6}
     path = netref.path(src, dst)
     faults = []
     for f in faults_desc:
@@ -145,12 +155,15 @@ def make(i, base_seed, tier):
             "nodes": [{"addr": a, "knobs": random_mcu_knobs(kr, stalls=False) if slow else {"spi_overhead_us": rng.choice([5, 20, 50]), "spi_jitter_us": 5,
                                                                                          "poll_us": rng.choice([100, 300, 1000]), "rate": 1.0 + rng.uniform(-0.02, 0.02),
                                                                                          "epoch_ns": rng.randrange(10**12)}} for a in sorted(closed)],
-            "faults": faults, "fault_desc": faults_desc, "cross": cross, "tx_timeout": rng.choice([5, 25, 25, 50, 150]),
+            "faults": faults, "fault_desc": faults_desc, "cross": cross, "late": late,
+            "stale_from": rng.choice([None, None, 0o3, 0o21, 0o4444]) if i >= len(en) else None, "tx_timeout": rng.choice([5, 25, 25, 50, 150]),
             "route_timeout": rng.choice([15, 75, 75, 150, 450])}
 
 
 def run(scn):
     res = Result()
+    if scn.get("late"):
+        scn = dict(scn, tx_timeout=150, route_timeout=450)
     w = World(scn["seed"], plan=scn.get("faults"), max_events=3_000_000, max_time=120_000 * MS)
     net = Net(w)
     try:
@@ -169,7 +182,11 @@ def _run(scn, w, net, res):
         def setup(node):
             node.tx_timeout = scn["tx_timeout"]
             node.route_timeout = scn["route_timeout"]
-        net.add(nd["addr"], "net", nd["addr"], knobs=nd["knobs"], setup=setup)
+        kn = nd["knobs"]
+        if scn.get("cross") and scn["cross"].get("slow_sender") and nd["addr"] == scn["src"]:
+            # a slow sender finds several frames in its RX FIFO in one pass (its own NETWORK_ACK and relayed ones)
+            kn = dict(kn, spi_overhead_us=400, spi_jitter_us=100)
+        net.add(nd["addr"], "net", nd["addr"], knobs=kn, setup=setup)
     net.start()
     sim.advance(3 * MS)
     src, dst, typ = scn["src"], scn["dst"], scn["type"]
@@ -185,8 +202,29 @@ def _run(scn, w, net, res):
         from circuitpython_nrf24l01.network.structs import RF24NetworkHeader, RF24NetworkFrame
         if mode == "multicast":
             return node.multicast(data, typ, netref.level(dst))
-        f = RF24NetworkFrame(RF24NetworkHeader(dst if mode == "unicast" else path[1], typ), data)
+        hd = RF24NetworkHeader(dst if mode == "unicast" else path[1], typ)
+        if scn.get("stale_from") is not None:
+            hd.from_node = scn["stale_from"]     # a re-used frame object still carrying another node's address
+        f = RF24NetworkFrame(hd, data)
         return node.write(f)
+    late = scn.get("late")
+    if late and hops > 1:
+        # calibration message (fault-free) measures acceptance -> NETWORK_ACK round trip at the origin
+        c_cal = net.call(src, "write", do, timeout=20_000 * MS)
+        net.wait_quiet(quiet=20 * MS, timeout=3000 * MS)
+        cal = [cy for cy in origin.radio.cycles[c0:] if len(cy["data"]) >= 8 and cy["data"][6] == typ and cy["result"] == "tx_ds"]
+        arr = [t["t1"] for t in w.air.trace[a0:] if not t["ack"] and len(t["data"]) >= 8 and t["data"][6] == 193
+               and (t["data"][2] | (t["data"][3] << 8)) == src and ("n%s" % src, "stored") in [tuple(x) for x in t["rx"]]]
+        if c_cal.result is True and cal and arr:
+            rtt = max(arr) - cal[0]["end"]
+            margin_ms = (2 * origin.mcu.poll_ns + 5 * MS) // MS + 4
+            scn["route_timeout"] = int(rtt // MS) + 1 + margin_ms + 3
+            origin.node.route_timeout = scn["route_timeout"]
+            w.air.mute.add("n%s" % src)                     # the origin's packets are lost for a while: first hop "absent"
+            sim.after(late["outage_ms"] * MS + margin_ms * MS, w.air.mute.discard, "n%s" % src)
+            sim.count("late_ack_calibrated")
+        a0 = len(w.air.trace)
+        c0 = len(origin.radio.cycles)
     cross = scn.get("cross")
     if cross and cross["from"] in net.nodes:
         def do2(node):
@@ -261,6 +299,12 @@ def _run(scn, w, net, res):
         orig = {cy["upload_t"] for cy in last.radio.cycles if len(cy["data"]) >= 8 and cy["data"][6] == 193}
         others = {k: len({cy["upload_t"] for cy in nc.radio.cycles if len(cy["data"]) >= 8 and cy["data"][6] == 193})
                   for k, nc in net.nodes.items() if k not in path and k not in cross_route}
+        wrong_to = [cy for cy in last.radio.cycles[len(last.radio.cycles) and 0:] if len(cy["data"]) >= 8 and cy["data"][6] == 193
+                    and cy["start"] >= c.t0 and cy["data"][8:] == b"" and (cy["data"][2] | (cy["data"][3] << 8)) != src
+                    and (cross is None or (cy["data"][2] | (cy["data"][3] << 8)) != cross["from"])]
+        if wrong_to and path[-2] not in cross_route:
+            res.add("once", dict(sig, kind="network_ack_to_wrong_node"), "the delivering node %o addressed its NETWORK_ACK to %o, the origin is %o"
+                    % (path[-2], wrong_to[0]["data"][2] | (wrong_to[0]["data"][3] << 8), src))
         last_hop_linkack = any(f["kind"] == "linkack" and f.get("pos") == hops - 1 for f in scn.get("fault_desc", []))
         if len(orig) > max(1, len(fw_uploads)):
             res.add("once", dict(sig, kind="multiple_network_acks"),
